@@ -478,17 +478,17 @@ Section Lift.
       destruct rt; inversion H; subst; eapply R_trans; eassumption.
   Qed.
 
-  Lemma go_dict_R : forall ev, ev_R ev -> forall l s s' r, go_dict ev s l = (s', r) -> R s s'.
+  Lemma go_dict_R : forall ev, ev_R ev -> forall l s y s' r, go_dict ev s l y = (s', r) -> R s s'.
   Proof.
-    intros ev Hev l. induction l as [|[k x] t IH]; intros s s' r H.
+    intros ev Hev l. induction l as [|[k x] t IH]; intros s y s' r H.
     - simpl in H. inversion H; subst. apply R_refl.
-    - rewrite go_dict_cons in H. destruct (ev s k) as [s0 rk] eqn:E0. pose proof (Hev _ _ _ _ E0) as F0.
-      destruct rk as [k'|e]; [|inversion H; subst; exact F0].
-      destruct (ev s0 x) as [s1 rx] eqn:E1. pose proof (Hev _ _ _ _ E1) as F1.
-      destruct rx as [x'|e]; [|inversion H; subst; eapply R_trans; eassumption].
-      destruct (go_dict ev s1 t) as [s2 rt] eqn:E2.
-      pose proof (IH _ _ _ E2) as F2.
-      destruct rt; inversion H; subst; eapply R_trans; try eassumption; eapply R_trans; eassumption.
+    - rewrite go_dict_cons in H. destruct (ev s x) as [s0 rx] eqn:E0. pose proof (Hev _ _ _ _ E0) as F0.
+      destruct rx as [x'|e]; [|inversion H; subst; exact F0].
+      destruct (ev s0 k) as [s1 rk] eqn:E1. pose proof (Hev _ _ _ _ E1) as F1.
+      destruct rk as [k'|e]; [|inversion H; subst; eapply R_trans; eassumption].
+      destruct (py_hashable k'); [|inversion H; subst; eapply R_trans; eassumption].
+      pose proof (IH _ _ _ _ H) as F2.
+      eapply R_trans; [exact F0|]. eapply R_trans; eassumption.
   Qed.
 
   Lemma go_kw_R : forall ev, ev_R ev -> forall l s s' r, go_kw ev s l = (s', r) -> R s s'.
@@ -535,7 +535,7 @@ Section Lift.
           inversion H; subst. eapply go_list_R; eassumption.
         * rewrite eval_VTuple in H. destruct (go_list (eval f) s l) as [s1 r1] eqn:E.
           inversion H; subst. eapply go_list_R; eassumption.
-        * rewrite eval_VDict in H. destruct (go_dict (eval f) s l) as [s1 r1] eqn:E.
+        * rewrite eval_VDict in H. destruct (go_dict (eval f) s l []) as [s1 r1] eqn:E.
           inversion H; subst. eapply go_dict_R; eassumption.
         * destruct ev.
           -- rewrite eval_VRef_true in H. eapply IHh; eassumption.
